@@ -21,6 +21,8 @@ def gen_args(rng, count, dist):
         return [bytes([97 + (i % 26)]) for i in range(count)]
     if dist == "2":
         return [b"%c%c" % (97 + i % 26, 97 + (i // 26) % 26) for i in range(count)]
+    if dist == "7":
+        return [b"%06d" % (i % 1000000) for i in range(count)]
     if dist == "10":
         return [b"%09d" % i + b"x" for i in range(count)]
     if dist == "loguniform":
@@ -41,8 +43,11 @@ def gen_args(rng, count, dist):
     raise ValueError(dist)
 
 
-def point(name, count, dist, env_kb, stack, opts=(), big=None, mode="-0"):
-    return {"name": name, "count": count, "dist": dist, "env_kb": env_kb, "stack": stack, "opts": list(opts), "big": big, "mode": mode}
+def point(name, count, dist, env_kb, stack, opts=(), big=None, mode="-0", env_tiny=0):
+    """env_kb: environment padding made of few large variables; env_tiny: number of additional tiny variables (each costs the
+    kernel a pointer as well as its bytes)."""
+    return {"name": name, "count": count, "dist": dist, "env_kb": env_kb, "stack": stack, "opts": list(opts), "big": big, "mode": mode,
+            "env_tiny": env_tiny}
 
 
 def grid(ctx, rng):
@@ -64,6 +69,15 @@ def grid(ctx, rng):
         point("200k mixed, unlimited stack", 200000, "mixed", 100, -1),
         point("600k x 10 bytes, env 1MB, unlimited stack", 600000, "10", 1000, -1),
         point("50k x 1 byte, newline mode, 512KiB", 50000, "1", 1, 512 * KIB, mode="nl"),
+        # -s in force but not the binding limit: the OS limits (pointer cost, per-argument cap) must still be honoured
+        point("600k x 1 byte -s 1000000 (legal, below the OS budget), 8MiB", 600000, "1", 1, 8 * MIB, opts=["-s", "1000000"]),
+        point("60k x 1 byte -s 100000, 512KiB stack", 60000, "1", 1, 512 * KIB, opts=["-s", "100000"]),
+        point("one 200000-byte arg among small with -s 500000", 300, "10", 1, 8 * MIB, opts=["-s", "500000"], big=(7, 200000)),
+        point("one 131072-byte arg with -s 1500000 -n 100", 300, "10", 1, 8 * MIB, opts=["-s", "1500000", "-n", "100"], big=(150, MAX_ARG_STRLEN)),
+        # environments made of many tiny variables (pointer cost dominates)
+        point("400k x 7 bytes, 4000 tiny environment variables, 8MiB", 400000, "7", 1, 8 * MIB, env_tiny=4000),
+        point("100k x 2 bytes, 20000 tiny environment variables, 8MiB", 100000, "2", 1, 8 * MIB, env_tiny=20000),
+        point("60k x 1 byte, 3000 tiny environment variables, 512KiB", 60000, "1", 1, 512 * KIB, env_tiny=3000),
     ]
     if ctx.quick:
         return q
@@ -74,8 +88,11 @@ def grid(ctx, rng):
                 if count == 1000000 and dist in ("loguniform",):
                     continue
                 env_kb = rng.choice([1, 60, 100]) if stack <= MIB else rng.choice([1, 100, 1000])
-                opts = rng.choice([[], [], ["-n", str(rng.choice([1000, 30000]))], ["-s", str(rng.choice([4096, 100000, 50000000]))]])
-                t.append(point("%d x %s, env %dKB, stack %d %s" % (count, dist, env_kb, stack, " ".join(opts)), count, dist, env_kb, stack, opts))
+                opts = rng.choice([[], [], ["-n", str(rng.choice([1000, 30000]))], ["-s", str(rng.choice([4096, 100000, 50000000]))],
+                                   ["-s", str(rng.choice([120000, 500000, 1000000, 2000000]))]])
+                tiny = rng.choice([0, 0, 300, 4000, 20000])
+                t.append(point("%d x %s, env %dKB + %d tiny, stack %d %s" % (count, dist, env_kb, tiny, stack, " ".join(opts)), count, dist, env_kb, stack,
+                               opts, env_tiny=tiny))
     for stack in (512 * KIB, 8 * MIB, -1):
         t.append(point("near-limit x 100 stack %d" % stack, 100, "nearlimit", 1, stack))
         t.append(point("one 131072 arg stack %d" % stack, 50, "10", 1, stack, big=(49, MAX_ARG_STRLEN)))
@@ -108,6 +125,8 @@ def run_point(job):
             env["VERIF_PAD%d" % i] = "p" * n
             left -= n
             i += 1
+        for j in range(p.get("env_tiny", 0)):
+            env["T%d" % j] = "1"
         log = os.path.join(wd, "rec.log")
         env.update({"VERIF_REC_LOG": log, "VERIF_REC_MODE": "compact"})
         slog = os.path.join(wd, "strace.log")
